@@ -651,6 +651,7 @@ pub fn run(check: &mut Check) {
     if check.is_replay() {
         vcommon::harness_error("C14 has no per-case replay: re-run ./check C14 quick");
     }
+    vcommon::abort::install(&check.id, "worlds", check.sub_seed("worlds", 0));
     let thorough = check.tier == vcommon::Tier::Thorough;
     let seed = check.sub_seed("scalars", 0);
     let w = world();
@@ -673,7 +674,9 @@ pub fn run(check: &mut Check) {
                 Err(e) => return Err(Failure::new(format!("{name}-native-build"), format!("the scalar world does not build natively for {name}:\n{e}"))),
             };
             let mut evals = 0;
+            vcommon::abort::set_current(&serde_json::json!({"backend": name, "wit": wit}).to_string());
             let r = run_native(so, &[], seed, thorough, &mut evals);
+            vcommon::abort::clear();
             obs.evals = evals;
             r
         });
